@@ -330,7 +330,7 @@ async def run_sequence(net, hyg, plan):
                 bad("tree-differs", verb, cls, f"{where} -> {code}: back-end tree differs from the model at {diff[:4]}")
                 break
         p.cut("fin")
-        await w.server.close()
+        await w.stop()
         return {"violations": viol, "monitors": mon, "sig": sig_of(transcript), "nontrivial": len(transcript) >= 3,
                 "transcript": transcript}
     finally:
@@ -344,7 +344,7 @@ def run_case(case):
         return await run_sequence(net, hyg, plan)
     res, info = W.run(main, seed=plan.get("seed", 0), net_kwargs=dict(mss=plan.get("mss", 1460), latency=0.001))
     if res is None:
-        return {"inconclusive": info.get("deadlock") or info.get("error"), "trace": info.get("trace", "")}
+        return W.failed(info)
     if res.get("inconclusive"):
         return res
     for v in res["violations"]:
